@@ -155,6 +155,22 @@ def ev(n, env):
         if c is None:
             return None
         return ev(n.children[1] if c else n.children[2], env)
+    if k == "StmtExpr" and n.children and n.children[0].k == "CompoundStmt" and n.children[0].children:
+        # ({ T _a = e1; T _b = e2; _a < _b ? _a : _b; }): declarations with initialisers followed by one value expression
+        body = n.children[0].children
+        local = dict(env)
+        for s in body[:-1]:
+            if s.k != "DeclStmt":
+                return None
+            for v in s.children:
+                if v.k != "VarDecl" or not v.children:
+                    return None
+                val = ev(v.children[-1], local)
+                if val is None:
+                    return None
+                vti = v.d.get("ti")
+                local[v.name] = _wrap(val, vti) if vti and not isinstance(val, float) else val
+        return ev(body[-1], local)
     return None
 
 
